@@ -412,7 +412,12 @@ Definition after_once_false (v : variant) (st : rstate) (f : frame) : rstate * l
   end.
 
 (* ---------------------------------------------------------------- the machine *)
+Fixpoint nodupb (l : list nat) : bool :=
+  match l with [] => true | x :: l' => negb (existsb (Nat.eqb x) l') && nodupb l' end.
+
+(* a poll answer reports registered, non-empty sockets, each at most once *)
 Definition valid_ready (st : rstate) (ready : list nat) : bool :=
+  nodupb ready &&
   forallb (fun i => match nth_error (srcs st) i with
                     | Some s => registered s && (match queue s with [] => false | _ => true end)
                     | None => false end) ready.
